@@ -97,3 +97,31 @@ V('C19', 'neg-local-rename', I, 'edb.server.config.lookup',
   'setting_value', 'sv', None, count=2)
 V('C19', 'neg-json-extra-key', O, OP + 'to_json_obj',
   "'name': name,", "'name': name,\n                    'version': 1,", None)
+
+V('C19', 'size-limit-only-on-set', 'edb/server/config/ops.py', 'edb.server.config.ops._check_object_set_uniqueness',
+  '''    if len(new_values) > MAX_CONFIG_SET_SIZE:
+        raise errors.ConfigurationError(
+            f'invalid value for the '
+            f'{setting.name!r} setting: set is too large')
+
+''', '', 'C19.R8', '_check_object_set_uniqueness:size-limit')
+V('C19', 'fields-before-tname', 'edb/server/config/types.py', 'edb.server.config.types.CompositeConfigType.from_pyvalue',
+  '''        data = dict(data)
+        tname = data.pop('_tname', None)
+        if tname is not None:
+            tspec = spec.get_type_by_name(tname)
+        assert tspec
+
+        fields = tspec.fields
+''', '''        assert tspec
+        fields = tspec.fields
+
+        data = dict(data)
+        tname = data.pop('_tname', None)
+        if tname is not None:
+            tspec = spec.get_type_by_name(tname)
+''', 'C19.R8', 'tspec-after-_tname')
+V('C19', 'falsy-config-fields-dropped', 'edb/schema/utils.py', 'edb.schema.utils.const_ast_from_python',
+  '                if not (typ.secret and not with_secrets) and not typ.protected\n', '                if not (typ.secret and not with_secrets) and not typ.protected\n                if getattr(val, ptr)\n', 'C19.R8', 'composite-fields-kept')
+V('C19', 'neg-none-fields-skipped', 'edb/schema/utils.py', 'edb.schema.utils.const_ast_from_python',
+  '                if not (typ.secret and not with_secrets) and not typ.protected\n', '                if not (typ.secret and not with_secrets) and not typ.protected\n                if getattr(val, ptr) is not None or True\n', None)
